@@ -9,13 +9,19 @@ class DeferredCycle(Exception):
 def wait(deferred):
     # A value that is defined in terms of itself (e.g. 'a = a' or 'a = . + a')
     # never stops yielding further deferred values; this is detected rather
-    # than followed forever.
+    # than followed forever. A chain of plain aliases ('a = b', 'b = c', ...)
+    # takes one step per link, whereas a polynomial that keeps yielding another
+    # polynomial is a ring being unrolled and is given up on much sooner.
     seen = []
+    polynomial_steps = 0
     while isinstance(deferred, BaseDeferred):
-        if len(seen) >= 64 or any(deferred is prev for prev in seen):
+        if len(seen) >= 1000 or polynomial_steps >= 64 or any(deferred is prev for prev in seen):
             raise DeferredCycle()
         seen.append(deferred)
-        deferred = deferred.wait()
+        value = deferred.wait()
+        if isinstance(deferred, LinearPolynomial) and isinstance(value, LinearPolynomial):
+            polynomial_steps += 1
+        deferred = value
     return deferred
 
 
